@@ -37,6 +37,12 @@ DRIVERS = {
         "files": {"a/mod.py": RANDOM, "b/mod.py": RANDOM, "c/bad.py": BAD + RANDOM},
         "sonar": ["a/mod.py", "b/mod.py", "c/bad.py"],
     },
+    # a codemod that schedules imports (AddImportsVisitor / RemoveImportsVisitor state), next to a file that passes through
+    # the pipeline without changes and one that fails to parse; no manifest (keeps executions cheap)
+    "import-scheduling": {
+        "codemod": "pixee:python/harden-pickle-load",
+        "files": {"a/mod.py": PICKLE, "b/plain.py": b"import os\n\nprint(os.getcwd())\n", "c/bad.py": BAD},
+    },
     "four-tasks": {
         "codemod": "pixee:python/harden-pickle-load",
         "files": {"a/mod.py": PICKLE, "b/mod.py": PICKLE, "c/bad.py": BAD, "d/mod.py": PICKLE, "requirements.txt": b"requests\n"},
@@ -128,6 +134,11 @@ def install_seams():
         "add_failure": _wrap(fc.FileContext, "add_failure", "add_failure"),
         "add_dependency": _wrap(fc.FileContext, "add_dependency", "add_dependency"),
         "file_line_patterns": _wrap(bc, "file_line_patterns", "file_line_patterns"),
+        # state that transformers keep outside the tree: scheduled imports (libcst CodemodContext.scratch) and the
+        # nested codemod passes that consume it
+        "schedule_add_import": _wrap(lt.AddImportsVisitor, "add_needed_import", "schedule_add_import", after=True),
+        "schedule_remove_import": _wrap(lt.RemoveImportsVisitor, "remove_unused_import_by_node", "schedule_remove_import", after=True),
+        "nested_codemod_pass": _wrap(__import__("libcst.codemod", fromlist=["Codemod"]).Codemod, "transform_module", "codemod_pass", after=True),
     }
     _SEAMS.append(got)
     return _SEAMS
